@@ -258,3 +258,39 @@ mut("c11-barekey-for-bare", "C11", "MUST", "hclwrite/generate.go",
     'if hclsyntax.ValidIdentifier(eKey.AsString()) && eKey.AsString() != "for" {', 'if hclsyntax.ValidIdentifier(eKey.AsString()) {', "barekey")
 mut("c11-barekey-keep-nested", "C11", "KEEP", "hclwrite/generate.go",
     'if hclsyntax.ValidIdentifier(eKey.AsString()) && eKey.AsString() != "for" {', 'if k := eKey.AsString(); !(k == "for" || !hclsyntax.ValidIdentifier(k)) {', "")
+
+# ---- rules added after round-5 seeds -----------------------------------------------------------------
+mut("c01-strip-sticky", "C01", "MUST", "hclsyntax/parser_template.go",
+    "\t\tltrim := ltrimNext\n\t\tltrimNext = false\n", "\t\tltrim := ltrimNext\n", "strip.adjacent")
+mut("c05-flag-set-back", "C05", "MUST", "hclsyntax/expression.go",
+    "\t\tkeyStr := key.AsString()\n\n\t\tvals[keyStr] = val\n", "\t\tkeyStr := key.AsString()\n\t\tknown = true\n\n\t\tvals[keyStr] = val\n", "unknown.flag")
+mut("c05-flag-keep-conj", "C05", "KEEP", "hclsyntax/expression.go",
+    "\t\tif !key.IsKnown() {\n\t\t\tknown = false\n\t\t\tcontinue\n\t\t}\n\n\t\tkeyStr := key.AsString()",
+    "\t\tknown = known && key.IsKnown()\n\t\tif !key.IsKnown() {\n\t\t\tcontinue\n\t\t}\n\n\t\tkeyStr := key.AsString()", "")
+mut("c06-foreach-marks-nil", "C06", "MUST", "ext/dynblock/expand_body.go",
+    "\t\t\t\t\t\tblock.Body = b.expandChild(block.Body, i, marks)", "\t\t\t\t\t\tblock.Body = b.expandChild(block.Body, i, nil)", "foreach.marks")
+mut("c06-foreach-marks-outer", "C06", "MUST", "ext/dynblock/expand_body.go",
+    "\t\t\t\t\t\ttemplate:   b.expandChild(block.Body, i, marks),", "\t\t\t\t\t\ttemplate:   b.expandChild(block.Body, i, b.valueMarks),", "foreach.marks")
+mut("c07-pop-guarded", "C07", "MUST", "hclsyntax/variables.go",
+    "\t\tw.localScopes = w.localScopes[:len(w.localScopes)-1]", "\t\tif last := len(w.localScopes) - 1; last > 0 {\n\t\t\tw.localScopes = w.localScopes[:last]\n\t\t}", "scope.pushpop")
+mut("c11-rune-one-byte", "C11", "MUST", "hclwrite/generate.go",
+    "func appendRune(b []byte, r rune) []byte {\n", "func appendRune(b []byte, r rune) []byte {\n\tif r <= 0xFF {\n\t\treturn append(b, byte(r))\n\t}\n", "byte(rune)")
+mut("c11-rune-keep-ascii", "C11", "KEEP", "hclwrite/generate.go",
+    "func appendRune(b []byte, r rune) []byte {\n", "func appendRune(b []byte, r rune) []byte {\n\tif r < 0x80 {\n\t\treturn append(b, byte(r))\n\t}\n", "")
+mut("c12-append-newline-items-only", "C12", "MUST", "hclwrite/ast_body.go",
+    "func (b *Body) appendItem(c nodeContent) *node {\n\tb.terminateLastLine()\n", "func (b *Body) appendItem(c nodeContent) *node {\n\tif len(b.items) > 0 {\n\t\tb.terminateLastLine()\n\t}\n", "append.newline")
+mut("c12-append-newline-always", "C12", "MUST", "hclwrite/ast_body.go",
+    "\t\tif !tokenIsNewline(toks[len(toks)-1]) {\n\t\t\tb.AppendNewline()\n\t\t}\n\t\treturn", "\t\tb.AppendNewline()\n\t\treturn", "append.newline")
+mut("c12-loader-normalises", "C12", "MUST", "hclwrite/ast_body.go",
+    "func (b *Body) appendItemNode(nn *node) *node {\n\tnn.assertUnattached()\n", "func (b *Body) appendItemNode(nn *node) *node {\n\tnn.assertUnattached()\n\tb.terminateLastLine()\n", "append.newline")
+mut("c12-mutator-returns-nil", "C12", "MUST", "hclwrite/ast_body.go",
+    "\tattr := b.GetAttribute(name)\n\texpr := NewExpressionRaw(tokens)\n\tif attr != nil {\n\t\tattr.expr = attr.expr.ReplaceWith(expr)\n\t} else {",
+    "\tattr := b.GetAttribute(name)\n\texpr := NewExpressionRaw(tokens)\n\tif attr != nil {\n\t\tattr.expr = attr.expr.ReplaceWith(expr)\n\t\treturn nil\n\t} else {", "mutator.result")
+mut("c19-label-guard-stripped", "C19", "MUST", "ext/dynblock/expand_spec.go",
+    "\t\tvar convErr error\n\t\tlabelVal, convErr = convert.Convert(labelVal, cty.String)", "\t\tbareVal, _ := labelVal.Unmark()\n\t\tlabelVal, convErr := convert.Convert(bareVal, cty.String)", "iter.marks")
+mut("c19-cond-placeholder-described", "C19", "MUST", "hclsyntax/expression.go",
+    "\t\tif diags.HasErrors() {\n\t\t\t// A result expression that failed yields a placeholder, whose\n\t\t\t// type can differ from the other result's only as a consequence\n\t\t\t// of that failure: its own errors are what there is to report.\n\t\t\treturn cty.DynamicVal, diags\n\t\t}\n\n\t\t// The detailed description",
+    "\t\t// The detailed description", "taint")
+mut("c19-cond-keep-two-tests", "C19", "KEEP", "hclsyntax/expression.go",
+    "\t\tif diags.HasErrors() {\n\t\t\t// A result expression that failed",
+    "\t\tif trueDiags.HasErrors() || falseDiags.HasErrors() {\n\t\t\t// A result expression that failed", "")
